@@ -15,6 +15,7 @@ from gsa import absint, cmprules, facts, ir, predeval
 from gsa.absint import Lin, fm_infeasible
 from gsa.facts import Unit, rel, AnalysisBroken
 from gsa.report import Check
+from rules import c09
 
 import os
 import re
@@ -833,6 +834,11 @@ def run(tier, replay=None):
         ok = t.replace(' ', '') in ('(filt()<other.filt())',)
         chk.ob('E9-derived', 'Edge::operator< is the strict order on the edge value', '%s:%d' % (HR, eo[0]['line']),
                ok, '' if ok else 'returns %s' % t, key='E9|Edge::operator<')
+    _by = {}
+    for _f in F.functions:
+        if _f.get('inst') in (0, 2) and _f.get('body') is not None and _f['file'].startswith(facts.REPO):
+            _by.setdefault(_f.get('cls') or _f.get('clsname') or '-', []).append(_f)
+    c09.run_assert_purity(chk, F, by=_by, min_count=5)
     chk.assumptions += ['clang 14 parser', 'ownership convention of the routine: a cell belongs to the smallest square '
                         'containing it; border squares keep only their inner edge and its two vertices',
                         'neighbour predicates are independent (any subset of the 8 neighbours can be larger)']
